@@ -588,11 +588,40 @@ func nothingToStoreRule(c *Ctx, r *Report) {
 			if !isConst || k.Value != nil {
 				continue
 			}
-			if nilness(RetVal(ret, 1), ret.Block(), 0) != 1 {
+			if !nonNilAt(RetVal(ret, 1), ret.Block(), 0) {
 				bad = c.Pos(ret.Pos())
 			}
 		}
 		r.Check(bad == "", "R13h", c.FnName(fn), "a value with every successful answer", c.Pos(fn.Pos()), fmt.Sprintf("%d returns: the zero Value only next to an error that is not nil", n),
 			"a return hands back the zero reflect.Value while the error can be nil (at "+bad+"): the caller has nothing to store, and what was unpacked into a temporary copy of a struct, map or array held by an interface or a map entry is lost without an error")
 	}
+}
+
+// nonNilAt: v is not nil whenever control is in block `at` — by nilness, or, for a value that joins several ways
+// (the results of an inlined helper meet in a φ that is tested right away), way by way: an alternative that can be nil
+// does not count when the test that leads to `at` has the other outcome on that way in.
+func nonNilAt(v ssa.Value, at *ssa.BasicBlock, depth int) bool {
+	if nilness(v, at, 0) == 1 {
+		return true
+	}
+	phi, ok := v.(*ssa.Phi)
+	if !ok || depth > 4 {
+		return false
+	}
+	for i, e := range phi.Edges {
+		if e == ssa.Value(phi) {
+			continue
+		}
+		if phiEdgeInfeasible(phi, i, at) {
+			continue
+		}
+		if i < len(phi.Block().Preds) && nilness(e, phi.Block().Preds[i], 0) == 1 {
+			continue
+		}
+		if inner, isPhi := e.(*ssa.Phi); isPhi && nonNilAt(inner, at, depth+1) {
+			continue
+		}
+		return false
+	}
+	return true
 }
